@@ -179,7 +179,7 @@ func c09AckFlow(c *Ctx, v *vocab) {
 		for _, e := range t.Ev {
 			if e.Kind == EvAssign && e.LObj == f {
 				found = true
-				if sig.Params().Len() == 0 || (&Interp{P: c.P, Info: fi.Pkg.TypesInfo}).objOf(e.RHS) != sig.Params().At(0) {
+				if sig.Params().Len() == 0 || evRHSObj(&Interp{P: c.P, Info: fi.Pkg.TypesInfo}, e) != sig.Params().At(0) {
 					okID = false
 				}
 			}
@@ -622,26 +622,35 @@ func c09Future(c *Ctx, v *vocab) {
 						bad, why = t, "an undone future must close exactly one channel"
 						continue
 					}
-					// under mutex: Lock precedes, Unlock deferred
-					locked := false
-					for _, e := range t.Ev[:cl[0]] {
-						if mo, op := c.mutexOp(in, e); mo == mu && op == "Lock" && e.Kind == EvCall {
-							locked = true
+					// one critical section of f.mutex contains both the close and done=true (in either order: both
+					// happen before the mutex is released, no other goroutine can observe one without the other)
+					lock := -1
+					for i, e := range t.Ev[:cl[0]] {
+						if mo, op := c.mutexOp(in, e); mo == mu && e.Kind == EvCall {
+							switch op {
+							case "Lock":
+								lock = i
+							case "Unlock":
+								lock = -1
+							}
 						}
-						if mo, op := c.mutexOp(in, e); mo == mu && op == "Unlock" && e.Kind == EvCall && !e.Deferred {
-							locked = false
+					}
+					end := len(t.Ev)
+					for i := cl[0] + 1; i < len(t.Ev); i++ {
+						if mo, op := c.mutexOp(in, t.Ev[i]); mo == mu && op == "Unlock" && t.Ev[i].Kind == EvCall {
+							end = i
+							break
 						}
 					}
 					set := false
-					for _, e := range t.Ev[cl[0]:] {
-						if e.Kind == EvAssign && e.LObj == done && e.RVal.K == VBool && e.RVal.B {
-							set = true
-						}
-						if mo, op := c.mutexOp(in, e); mo == mu && op == "Unlock" && !set {
-							locked = false
+					if lock >= 0 {
+						for _, e := range t.Ev[lock:end] {
+							if e.Kind == EvAssign && e.LObj == done && e.RVal.K == VBool && e.RVal.B {
+								set = true
+							}
 						}
 					}
-					if !locked || !set {
+					if lock < 0 || !set {
 						bad, why = t, "close not inside the critical section that sets done=true"
 					}
 					want := "completed"
@@ -755,7 +764,7 @@ func c10Publish(c *Ctx, v *vocab) {
 			for _, e := range t.Ev {
 				if e.Kind == EvAssign && e.LObj == f {
 					found = true
-					if h.objOf(e.RHS) != pid {
+					if evRHSObj(h, e) != pid {
 						ok = false
 					}
 				}
@@ -859,7 +868,10 @@ func c10Pubrel(c *Ctx, v *vocab) {
 		for _, e := range t.Ev {
 			if e.Kind == EvAssign && e.LObj == f {
 				found = true
-				ro := h.objOf(e.RHS)
+				ro := evRHSObj(h, e)
+				if e.RObj != nil {
+					ro = e.RObj
+				}
 				if !(sig.Params().Len() > 0 && ro == sig.Params().At(0)) && ro != c.P.Field("packet", "Publish", "ID") {
 					ok = false
 				}
@@ -1213,10 +1225,10 @@ func c17Protect(c *Ctx, v *vocab) {
 			n++
 			fs, ss := false, false
 			for _, e := range t.Ev[:ci] {
-				if e.Kind == EvAssign && e.LObj == v.cfFutureStore && h.objOf(e.RHS) == sFS {
+				if e.Kind == EvAssign && e.LObj == v.cfFutureStore && evRHSObj(h, e) == sFS {
 					fs = true
 				}
-				if e.Kind == EvAssign && e.LObj == cSess && h.objOf(e.RHS) == sSess {
+				if e.Kind == EvAssign && e.LObj == cSess && evRHSObj(h, e) == sSess {
 					ss = true
 				}
 			}
